@@ -79,6 +79,7 @@ fn event_name(e: &EventKind) -> &'static str {
         EventKind::Spawn { .. } => "spawn",
         EventKind::UnmapNamed { .. } => "unmap",
         EventKind::ForeignTracer { .. } => "foreign_tracer",
+        EventKind::MapAnon { .. } => "map_anon",
     }
 }
 
